@@ -118,10 +118,11 @@ class ECDSAPrivateKey(_ECKey):
         priv = priv_key.private_numbers()
         pub = priv.public_numbers
 
-        if not public_value:
-            # The public key is optional in SEC1/PKCS#8 private keys
-            public_value = priv_key.public_key().public_bytes(
-                Encoding.X962, PublicFormat.UncompressedPoint)
+        # The public key is optional in SEC1/PKCS#8 private keys and may
+        # be stored compressed there: always keep the uncompressed point,
+        # the only form used in SSH public key blobs
+        public_value = priv_key.public_key().public_bytes(
+            Encoding.X962, PublicFormat.UncompressedPoint)
 
         return cls(priv_key, curve_id, pub, public_value, priv)
 
@@ -164,6 +165,10 @@ class ECDSAPublicKey(_ECKey):
         pub_key = ec.EllipticCurvePublicKey.from_encoded_point(curve(),
                                                                public_value)
         pub = pub_key.public_numbers()
+
+        # A compressed point is accepted on input but never kept as is
+        public_value = pub_key.public_bytes(Encoding.X962,
+                                            PublicFormat.UncompressedPoint)
 
         return cls(pub_key, curve_id, pub, public_value)
 
